@@ -123,7 +123,10 @@ def strip(d):
 
 def evaluate_history(case):
     calls = case["calls"]
-    labels = [f"calls={len(calls)}"] + sorted({f"alg={c['alg']}" for c in calls})
+    labels = [f"calls={len(calls)}"] + sorted({f"alg={c['alg']}" for c in calls if "alg" in c})
+    if any("mutate" in c for c in calls):
+        labels.append("caller-changes-an-input-between-calls")
+    real_calls = [c for c in calls if "alg" in c]
     resp = ask_server({"inputs": case["inputs"], "calls": calls})
     if "server_error" in resp:
         raise env.HarnessError(f"fresh server: {resp['server_error']}")
@@ -135,6 +138,8 @@ def evaluate_history(case):
     raised = 0
     for i, c in enumerate(calls):
         ref = refs[i]
+        if "mutate" in c:
+            continue
         if "child_error" in ref:
             inconclusive = "timeout" if ref["child_error"] == "timeout" else "reference-child-failed"
             continue
@@ -148,19 +153,20 @@ def evaluate_history(case):
         if strip(hist[i]) != strip(ref):
             fails.append(Failure(f"{PROP}/{alg}/result-depends-on-call-history",
                                  {"call_index": i, "call": c, "in_history": strip(hist[i]), "in_fresh_process": strip(ref),
-                                  "earlier_calls": [f"{x['alg']}@input{x['input']}" for x in calls[:i]]}))
-    algs = {c["alg"] for c in calls}
-    keys = [json.dumps(c, sort_keys=True) for c in calls]
+                                  "earlier_calls": [(f"{x['alg']}@input{x['input']}" if "alg" in x else f"caller sets input{x['mutate']}[{x['index']}]={x['value']}")
+                                                    for x in calls[:i]]}))
+    algs = {c["alg"] for c in real_calls}
+    keys = [json.dumps(c, sort_keys=True) for c in real_calls]
     repeated = len(set(keys)) < len(keys)
     if repeated:
         labels.append("has-repeated-call")
     if raised:
         labels.append("has-failed-call")
-    shared = len({c["input"] for c in calls}) < len(calls)
+    shared = len({c["input"] for c in real_calls}) < len(real_calls)
     if shared:
         labels.append("input-object-shared-between-calls")
     by_alg = {}
-    for c, k in zip(calls, keys):
+    for c, k in zip(real_calls, keys):
         by_alg.setdefault(c["alg"], set()).add(k)
     related = any(len(v) >= 2 for v in by_alg.values())          # one algorithm called in two different ways
     if related:
@@ -279,6 +285,18 @@ def history_cases(draw):
             c = fresh_call(draw, inputs, prev["input"], prev["alg"])
             c["param"] = prev["param"]
             calls.append(c)
+    # the caller changes a value of an input object between two calls (one history in three)
+    if draw(st.integers(0, 2)) == 0:
+        cands = [j for j, s_ in enumerate(inputs) if s_["pres"] in MUTABLE_PRES and any(c["input"] == j for c in calls)]
+        if cands:
+            j = draw(st.sampled_from(cands))
+            pos = draw(st.integers(1, len(calls) - 1)) if len(calls) > 1 else 1
+            step = {"mutate": j, "index": draw(st.integers(0, len(inputs[j]["values"]) - 1)), "value": draw(st.integers(1, 30))}
+            calls = calls[:pos] + [step] + calls[pos:]
+            later = [c for c in calls[pos + 1:] if c.get("input") == j]
+            if not later:                      # make sure the changed input is used again
+                earlier = [c for c in calls[:pos] if c.get("input") == j]
+                calls.append(dict(earlier[-1]))
     return {"kind": "history", "inputs": inputs, "calls": calls}
 
 
@@ -316,6 +334,9 @@ def sweep_cases(draw):
     return {"kind": "history", "sweep": True, "inputs": [{"values": values, "pres": pres, "nseed": draw(st.integers(0, 5))}], "calls": calls}
 
 
+MUTABLE_PRES = ("list", "array", "dict-str", "names")       # presentations whose item names do not depend on the values
+
+
 def valid_history(case):
     ins, calls = case.get("inputs"), case.get("calls")
     if not isinstance(ins, list) or not isinstance(calls, list) or not calls or not ins:
@@ -324,7 +345,15 @@ def valid_history(case):
         v = s.get("values")
         if not isinstance(v, list) or not (1 <= len(v) <= 12) or any((not isinstance(x, int)) or x < 0 for x in v):
             return False
+    if not any("alg" in c for c in calls):
+        return False
     for c in calls:
+        if "mutate" in c:
+            j = c["mutate"]
+            if not (isinstance(j, int) and 0 <= j < len(ins) and isinstance(c.get("index"), int) and 0 <= c["index"] < len(ins[j]["values"])
+                    and isinstance(c.get("value"), int) and c["value"] >= 1 and ins[j].get("pres") in MUTABLE_PRES):
+                return False
+            continue
         if c.get("alg") not in sut.ALL_ALGS or not isinstance(c.get("input"), int) or not (0 <= c["input"] < len(ins)):
             return False
         if not isinstance(c.get("param"), int) or c["param"] < 1:
@@ -342,6 +371,8 @@ def fix_history(case):
     ins = case["inputs"]
     positive = [j for j, s in enumerate(ins) if min(s["values"]) >= 1]
     for c in case["calls"]:
+        if "mutate" in c:
+            continue
         if c["alg"] in sut.COVERERS and min(ins[c["input"]]["values"]) < 1:
             if positive:
                 c["input"] = positive[0]
@@ -362,10 +393,11 @@ def shrink_history(case):
             if cand and cand != calls:
                 yield dict(case, calls=cand)
         size //= 2
-    used = sorted({c["input"] for c in calls})
+    used = sorted({c["input"] for c in calls if "alg" in c} | {c["mutate"] for c in calls if "mutate" in c})
     if len(used) < len(ins):
         remap = {old: new for new, old in enumerate(used)}
-        yield dict(case, inputs=[ins[j] for j in used], calls=[dict(c, input=remap[c["input"]]) for c in calls])
+        yield dict(case, inputs=[ins[j] for j in used],
+                   calls=[(dict(c, input=remap[c["input"]]) if "alg" in c else dict(c, mutate=remap[c["mutate"]])) for c in calls])
     for j, s in enumerate(ins):
         v = s["values"]
         for i in range(len(v)):
@@ -374,6 +406,8 @@ def shrink_history(case):
         if s.get("pres") != "list":
             yield dict(case, inputs=ins[:j] + [dict(s, pres="list")] + ins[j + 1:])
     for i, c in enumerate(calls):
+        if "mutate" in c:
+            continue
         if c.get("outputtype") != "Partition":
             yield dict(case, calls=calls[:i] + [dict(c, outputtype="Partition")] + calls[i + 1:])
 
